@@ -21,7 +21,7 @@ CFG_TIMEOUT = {'quick': 900, 'thorough': 3600}
 def configs(tier):
     q = tier == 'quick'
     shapes = [(1, 1), (1, 2), (2, 2), (2, 3), (3, 2), (3, 3), (4, 3), (4, 4)] if q else \
-        [(a, b) for a in range(1, 6) for b in range(1, 6) if a * b <= 12]        # sized for about half an hour on 16 cores
+        [(a, b) for a in range(1, 6) for b in range(1, 6) if a * b <= 9]        # sized for about half an hour on 16 cores
     out = []
     for (m, n) in shapes:
         out.append({'name': 'conv-algebra-%dx%d' % (m, n), 'kind': 'conv', 'shape': [m, n]})
